@@ -35,6 +35,7 @@ package main
 //@     assert[C07:no-exit-on-request-path] false
 
 //@ func processOneRequest$1 props(C01,C04,C07)
+//@   at if err := forwardRequest(client, hostProxy, request); err != nil
 //@   requires request != nil && request.Contents != nil && request.Contents.Header != nil && hostProxy != nil
 //@   ghost fwd int = 0
 //@   call forwardRequest
@@ -78,6 +79,7 @@ package main
 //@     |   && (spawned[id] >= 1 && !lruEv[previouslySeenRequests][id] ==> lruHas[previouslySeenRequests][id]))
 //@     invariant[C08:counter-is-consecutive-failures] fails >= 0 && (fails < 18446744073709551616 ==> retryCount == fails) && (failed <==> fails > 0) && (failed ==> slept) && !gate
 //@   loop 2
+//@     at for _, requestID := range requests
 //@     invariant[C04:dedup-window] previouslySeenRequests != nil && lruMax[previouslySeenRequests] == 1000
 //@     invariant[C04:dedup-history] forall_str(id, spawned[id] >= 0 && (lruHas[previouslySeenRequests][id] ==> spawned[id] >= 1) && (!lruEv[previouslySeenRequests][id] ==> spawned[id] <= 1)
 //@     |   && (spawned[id] >= 1 && !lruEv[previouslySeenRequests][id] ==> lruHas[previouslySeenRequests][id]))
@@ -108,6 +110,7 @@ package main
 //@   call log.Fatal
 //@     assert[C20:exit-only-at-threshold] consec >= max(1, old(*healthCheckUnhealthy))
 //@   loop 1
+//@     at for range ticker.C
 //@     invariant[C20:count-is-consecutive-failures] badHealthChecks == consec && consec >= 0
 //@     invariant[C20:exit-at-threshold] consec < *healthCheckUnhealthy && *healthCheckUnhealthy == max(1, old(*healthCheckUnhealthy)) && *healthCheckFreq > 0
 
@@ -157,6 +160,7 @@ package main
 //@   call time.Sleep
 //@     assert[C20:polling-cancelled-before-the-grace-period] cancelled == 1 && arg0 == *gracefulShutdownTimeout && arg0 > 0
 //@ func main$1 props(C20)
+//@   at if err := runAdapter(ctx, requestPollingCtx); err != nil
 //@   requires requestPollingCtx != nil
 //@   call runAdapter
 //@     assert[C20:adapter-polls-with-the-cancellable-context] arg0 == ctx && arg1 == requestPollingCtx
